@@ -5,6 +5,7 @@ import Driver.Block
 import Driver.Ante
 import Driver.VAuth
 import Driver.Erc20
+import Driver.Cpc
 
 def main (args : List String) : IO UInt32 := do
   let stdin ← IO.getStdin
@@ -17,4 +18,5 @@ def main (args : List String) : IO UInt32 := do
   | ["vauth"] => Driver.loop stdin stdout Driver.VAuth.step Driver.VAuth.init; return 0
   | ["erc20"] => Driver.loop stdin stdout Driver.Erc20.step Driver.Erc20.init; return 0
   | ["calltree"] => Driver.loop stdin stdout Driver.Erc20.step Driver.Erc20.init; return 0
+  | ["cpc"] => Driver.loop stdin stdout Driver.Cpc.step Evermint.Cpc.empty; return 0
   | _ => IO.eprintln "usage: driver <engine>"; return 2
